@@ -35,5 +35,9 @@ def main():
         for r in ex.map(one, items):
             print(r["change"], r.get("status"), r["checks"], flush=True)
             out.append(r)
-    json.dump(out, open(os.path.join(V, "seeded", "RESULTS.json"), "w"), indent=1)
+    path = os.path.join(V, "seeded", "RESULTS.json")
+    if only and os.path.exists(path):      # partial run: merge into the previous results
+        new = {r["change"]: r for r in out}
+        out = [new.pop(r["change"], r) for r in json.load(open(path))] + list(new.values())
+    json.dump(out, open(path, "w"), indent=1)
 main()
